@@ -87,8 +87,10 @@ def rule_a(repo, res, ot):
             names = [dotted(e) for e in n.target.elts[1].elts]
             cmp_ = {}
             for c in ast.walk(n):
-                if isinstance(c, ast.Compare) and len(c.ops) == 1 and isinstance(c.ops[0], ast.Eq) and subscript_key(c.left, "video_parameters") and dotted(c.comparators[0]) in names:
-                    cmp_[dotted(c.comparators[0])] = subscript_key(c.left, "video_parameters")
+                if isinstance(c, ast.Compare) and len(c.ops) == 1 and isinstance(c.ops[0], ast.Eq):
+                    for a_, b_ in ((c.left, c.comparators[0]), (c.comparators[0], c.left)):
+                        if subscript_key(a_, "video_parameters") and dotted(b_) in names:
+                            cmp_[dotted(b_)] = subscript_key(a_, "video_parameters")
             want = [fmap.get(f) for f in fields]
             got = [cmp_.get(x) for x in names]
             ok = want == got and len(want) == 3 and None not in want
